@@ -161,6 +161,9 @@ class Check(PropertyCheck):
             L = max(len(job) for job in I.jobs)
             if arr.shape != (len(I.jobs), L):
                 res.append(("view:padded", f"durations_matrix_array shape {arr.shape}"))
+        elif line == "dict" and out.startswith("raise stale-name"):
+            res.append(("roundtrip:dict", f"after the instance was renamed, to_dict() still carries the name `{out[17:]}` (an earlier "
+                        "to_dict() result, edited by its caller)"))
         elif line == "dict" and out.startswith("raise"):
             res.append(("roundtrip:dict", f"the dictionary round trip of a valid instance raised: {out}"))
         elif line in ("dict", "taillard") and out != "n/a":
